@@ -297,6 +297,17 @@ pub const TEMPLATES: &[Template] = &[
     ..T0
   },
   Template {
+    // the message names a variable captured outside the matched node
+    name: "log-in-function",
+    langs: JS,
+    severity: "warning",
+    message: "console.log of $A in function $FN",
+    rule: "  pattern: console.log($A)\n  inside:\n    pattern: function $FN($$$PARAMS) { $$$BODY }\n    stopBy: end\n",
+    valid: &["console.log(1)"],
+    invalid: &["function f() {\n  console.log(x);\n}"],
+    ..T0
+  },
+  Template {
     name: "foo-same-args",
     langs: JS,
     severity: "error",
